@@ -208,7 +208,7 @@ def ensure2d (s : List Nat) : List Nat := if s.length = 1 then s ++ [1] else s
     `none` = IndexError (an input with fewer dimensions than the first) -/
 def equalDimsAll (ss : List (List Nat)) : Option Bool :=
   match ss with
-  | [] => some true
+  | [] => none                               -- to_check[0].ndim raises IndexError
   | s0 :: rest =>
     if rest.any (·.length < s0.length) then none
     else some (rest.all fun s => s.take s0.length == s0)
